@@ -255,7 +255,8 @@ Proof. intros H. apply upper_not_lower_varies, H. Qed.
 
 Lemma dn_var_name D j : dt_name_ok D -> valid_child_name (Some (name_idx D j)) (Some (unbs "VARIES")) = false.
 Proof.
-  intros H. rewrite valid_child_name_idx, (dn_upper D H). change (upper (unbs "VARIES")) with (unbs "VARIES").
+  intros H. destruct (Nat.eq_dec j 0) as [->|Hj]; [apply valid_child_name_idx_0|].
+  rewrite valid_child_name_idx, (dn_upper D H) by exact Hj. change (upper (unbs "VARIES")) with (unbs "VARIES").
   apply not_varies_name, H.
 Qed.
 
@@ -263,13 +264,13 @@ Lemma leaf_structure i : parse_structure t (SLeaf i) = Ok (mk_structure (SLeaf i
 Proof. reflexivity. Qed.
 
 (* admission of a child named D_k under a parent of complex datatype D whose structure knows D_k *)
-Lemma vcc_named_child pn D st k kdt : dt_name_ok D ->
+Lemma vcc_named_child pn D st k kdt : dt_name_ok D -> k <> 0 ->
   has_map (Some st) = true -> opt_is_some (by_name st (name_idx D k)) = true ->
   valid_child_complex t TOLERANT pn (Some D) (Some st) (Some (name_idx D k)) kdt = Ok true.
 Proof.
-  intros HD Hm Hb. unfold valid_child_complex.
+  intros HD Hk0 Hm Hb. unfold valid_child_complex.
   rewrite (dn_not_base D HD), (dn_is_varies D HD). cbn [negb andb opt_is_none orb is_strict].
-  rewrite !andb_false_r. rewrite valid_child_name_idx, streqb_refl. cbn [negb]. rewrite !andb_false_r.
+  rewrite !andb_false_r. rewrite valid_child_name_idx, streqb_refl by exact Hk0. cbn [negb]. rewrite !andb_false_r.
   rewrite name_idx_upper, (dn_upper D HD), Hm, Hb. cbn [andb orb].
   now destruct (base (Some (name_idx D k))).
 Qed.
@@ -383,9 +384,9 @@ Proof.
   - cbn [add_subs]. rewrite app_nil_r. now destruct c.
   - cbn [add_subs]. rewrite Hdt, Hst', (dn_not_base D HD). rewrite andb_false_r. cbn [andb].
     destruct (Hk x (or_introl eq_refl)) as [k [Hkr Hn]]. rewrite Hn.
-    rewrite valid_child_name_idx, streqb_refl. cbn [negb]. rewrite andb_false_r.
+    rewrite valid_child_name_idx, streqb_refl by lia. cbn [negb]. rewrite andb_false_r.
     destruct (rows_structure_known D CMP rows st k Hs Hr Hkr) as [Hm Hb].
-    rewrite vcc_named_child; auto.
+    rewrite vcc_named_child; auto; [|lia].
     cbn [bind negb]. rewrite card_ok_tolerant. cbn [negb].
     rewrite IH; auto.
     + cbn [c_name c_dt c_st c_children]. now rewrite <- app_assoc.
@@ -579,7 +580,7 @@ Proof.
   - cbn [add_comps]. rewrite Hdt, Hst', (dn_not_base P HP). rewrite andb_false_r. cbn [andb].
     destruct (Hk x (or_introl eq_refl)) as [k [Hkr Hn]]. rewrite Hn.
     destruct (rows_structure_known P CMP rows st k Hs Hr Hkr) as [Hm Hb].
-    rewrite vcc_named_child; auto.
+    rewrite vcc_named_child; auto; [|lia].
     cbn [bind negb]. rewrite card_ok_tolerant. cbn [negb].
     rewrite IH; auto.
     + cbn [f_name f_dt f_st f_children]. now rewrite <- app_assoc.
